@@ -19,6 +19,8 @@ fn assert_send_sync<T: Send + Sync>() {}
 enum Op {
     Reset(usize),
     Tokenize,
+    /// read the result list without tokenizing (also right after reset_sentence)
+    Read,
     InitCounter,
     UpdateCounts,
 }
@@ -80,10 +82,11 @@ fn c04_history(ctx: &mut Ctx, rng: &mut Rng, case: &TokCase, tok: &Tokenizer, ex
     let mut tokenized_since_reset = false;
     let mut ever_tokenized = false;
     for _ in 0..len {
-        let op = match rng.below(10) {
+        let op = match rng.below(12) {
             0..=3 => Op::Reset(rng.below(case.sentences.len())),
             4..=7 => Op::Tokenize,
             8 => Op::InitCounter,
+            9 | 10 => Op::Read,
             _ => Op::UpdateCounts,
         };
         match op {
@@ -101,6 +104,11 @@ fn c04_history(ctx: &mut Ctx, rng: &mut Rng, case: &TokCase, tok: &Tokenizer, ex
             Op::InitCounter => {
                 has_counter = true;
                 ops.push(op)
+            }
+            Op::Read => {
+                if ops.iter().any(|o| matches!(o, Op::Reset(_))) {
+                    ops.push(op)
+                }
             }
             Op::UpdateCounts => {
                 if has_counter && tokenized_since_reset && ever_tokenized {
@@ -124,6 +132,7 @@ fn c04_history(ctx: &mut Ctx, rng: &mut Rng, case: &TokCase, tok: &Tokenizer, ex
                 w.tokenize();
                 Some(read_tokens(&w))
             }
+            Op::Read => Some(read_tokens(&w)),
             Op::InitCounter => {
                 w.init_connid_counter();
                 None
@@ -139,9 +148,27 @@ fn c04_history(ctx: &mut Ctx, rng: &mut Rng, case: &TokCase, tok: &Tokenizer, ex
                 ctx.violation("history_op_panicked", &format!("C04:history:{}", panic_class(&p)), format!("step {k} {op:?}: {p}"), brief());
                 return;
             }
+            Ok(Some(toks)) if matches!(op, Op::Read) && ntok_calls_since_reset == 0 => {
+                // read between reset_sentence and tokenize: a fresh worker given the same two calls
+                ctx.eval();
+                let i = cur.unwrap();
+                let mut fresh = tok.new_worker();
+                let model = guarded(|| {
+                    fresh.reset_sentence(&case.sentences[i]);
+                    read_tokens(&fresh)
+                })
+                .unwrap_or_default();
+                if toks != model {
+                    ctx.violation("read_after_reset_differs_from_fresh_worker", "C04:read_after_reset_differs_from_fresh_worker", format!("step {k}: after reset_sentence({:?}) and before tokenize this worker shows {:?}, a fresh worker {:?}", case.sentences[i], toks_brief(&toks), toks_brief(&model)), brief());
+                    return;
+                }
+                ctx.bucket("read_between_reset_and_tokenize");
+            }
             Ok(Some(toks)) => {
                 ctx.eval();
-                ntok_calls_since_reset += 1;
+                if matches!(op, Op::Tokenize) {
+                    ntok_calls_since_reset += 1;
+                }
                 let i = cur.unwrap();
                 if toks != expected[i] {
                     let what = if ntok_calls_since_reset > 1 { "repeated_tokenize_differs" } else { "reused_worker_differs_from_fresh" };
